@@ -246,9 +246,9 @@ func (pi *partIter) findBlock() bool {
 				return false
 			}
 			if shouldSkip {
-				if !pi.nextSeriesID() {
-					return false
-				}
+				// The filter summarizes this block only; later blocks of the
+				// same series in this part may still hold matching rows.
+				bhs = bhs[1:]
 				continue
 			}
 		}
